@@ -35,8 +35,9 @@ CLAIM = dict(
     "(over R for all modes; also on the exact Q model of DarsiaModel.Transport). Proved by a checker "
     "(exact arithmetic in Q(sqrt d), symmetric pairing, permutation of the product grid) shown sound once over the reals "
     "and evaluated by the kernel per table.",
-    note="transport_density itself (face_to_cell, norms, the loop over the rule) is tied numerically: real solver objects vs the sum over the "
-    "model's rule, 1e-13; numpy evaluates the literal expressions in floating point (validated against the symbolic values to 1e-15 on every "
+    note="transport_density itself (face_to_cell, norms, the loop over the rule; weighted=False, the default weighted=True without and with a "
+    "scalar weight image) is tied numerically: real solver objects vs the sum over the model's rule, 1e-13; if the source leaves the "
+    "accepted AST subset the committed table is used and only validated numerically (recorded in the evidence); numpy evaluates the literal expressions in floating point (validated against the symbolic values to 1e-15 on every "
     "run); N-D exactness: for d = 2, 3 every polynomial (term list) of per-variable degree <= 2n-1 against the iterated interval "
     "integral over the square / cube (both cells); for general d as the product of 1-D integrals; no measure-theoretic cube integral.",
     technique="Lean 4 proof (sound computable checker + decide +kernel per generated table) + G2 extraction validated against the running code + exhaustive oracle",
@@ -614,6 +615,30 @@ def consumer(ctx, d):
                 worst = max(worst, e)
                 if not e <= 1e-13:
                     diffs.append((mode, dim, list(shape), e))
+                # the default path weighted=True: without a weight image it is the unweighted density; with a (positive scalar) weight
+                # image the cell flux is multiplied by the cell weight before the norm, i.e. the density by that weight
+                tdw0 = call(solver.transport_density, flux.copy())
+                if isinstance(tdw0, Raised) or not np.array_equal(np.asarray(tdw0), np.ravel(td, "F")):
+                    diffs.append((mode, dim, list(shape), "weighted=True without weight differs from weighted=False", repr(tdw0)[:80]))
+                wimg = rng.integers(1, 9, shape).astype(float) / 4.0
+                wsolver = call(lambda: W.WassersteinDistanceNewton(d.generate_grid(im), d.Image(wimg.copy(), space_dim=dim, dimensions=dims_phys, scalar=True), opts))
+                tdw = wsolver if isinstance(wsolver, Raised) else call(wsolver.transport_density, flux.copy(), True, False)
+                if isinstance(tdw, Raised) or np.asarray(tdw).shape != tuple(shape):
+                    diffs.append((mode, dim, list(shape), "weighted solver", repr(tdw)[:80]))
+                else:
+                    refw = np.zeros(shape)
+                    for pt, wq in zip(pts, w):
+                        refw += wq * np.linalg.norm(d.face_to_cell(grid, flux, pt=np.array(pt) if dim > 1 else pt[0]) * wimg[..., None], 2, axis=-1)
+                    ew = float(np.max(np.abs(refw - tdw))) / max(1.0, float(np.max(np.abs(tdw))))
+                    worst = max(worst, ew)
+                    if not ew <= 1e-13:
+                        diffs.append((mode, dim, list(shape), "weighted", ew))
+                    centre_w = np.linalg.norm(d.face_to_cell(grid, flux) * wimg[..., None], 2, axis=-1)
+                    if not np.all(centre_w <= tdw + 1e-12 * max(1.0, float(np.max(tdw)))):
+                        c = int(np.argmax(centre_w - tdw))
+                        ctx.fail(f"C15:transport_density({mode},dim={dim},weighted):below-mean-flux", "weighted transport density of a cell is smaller than the norm of its weighted mean flux",
+                                 {"call": ["consumer", mode, dim, list(shape)], "flux": flux.tolist(), "weight": wimg.tolist(), "cell": c,
+                                  "density": float(np.asarray(tdw).ravel()[c]), "norm_mean_flux": float(centre_w.ravel()[c])})
                 tot = call(solver.l1_dissipation, flux.copy())
                 vol = float(np.prod([a / b for a, b in zip(dims_phys, shape)]))
                 if isinstance(tot, Raised) or not abs(float(tot) - vol * float(ref.sum())) <= 1e-12 * max(1.0, abs(float(tot))):
@@ -816,6 +841,9 @@ def run(ctx):
     ctx.cov["accepted_by_api"] = [list(map(str, a)) for a in accepted]
     ctx.cov["rule"] = ("exhaustive over dims 1-3 x orders 0..6 and 'max' for gauss and gauss_reference_cell, dims 1-3 for the corner rule; "
                        "evaluations = monomials of per-variable degree <= 2n-1 evaluated on the returned arrays")
+    if ctx.cov.get("tie", "").startswith("G2-unavailable"):
+        ctx.assumptions.append("FALLBACK RUN: quadrature.py left the accepted AST subset; the Lean theorems are about the COMMITTED table, which was only "
+                               "validated numerically (1e-15) against the running gauss() in this run - not regenerated from the source")
     ctx.assumptions += [
         "numpy evaluates the literal table expressions in IEEE doubles: symbolic value vs float within 1e-15 (measured on every run)",
         "oracle tolerance on float moments 2e-14 * measure (sums of <= 27 terms of size <= 8)",
